@@ -164,7 +164,8 @@ def formats_for(t):
            ("openssh-v1", "openssh", {"subtype": "v1"}, None, False),
            ("openssh-v1-comment", "openssh", {"subtype": "v1", "comment": b"a comment"}, None, False),
            ("openssh-v1-pass", "openssh", {"subtype": "v1", "passphrase": b"correct horse"}, None, False),
-           ("openssh-default", "openssh", {}, None, False)]
+           ("openssh-default", "openssh", {}, None, False),
+           ("openssh-default-pass", "openssh", {"passphrase": b"no subtype given"}, None, False)]
     if t != "Ed25519":
         out += [("openssh-pem", "openssh", {"subtype": "PEM"}, None, False),
                 ("openssh-pem-pass", "openssh", {"subtype": "PEM", "passphrase": b"pw"}, None, False)]
@@ -184,12 +185,34 @@ def _fmt_obs(case) -> str:
         kw = dict(kw)
         kw["passphrase"] = bytes.fromhex(case["pp"]["b"]) if "b" in case["pp"] else case["pp"]["s"]
     src = K.public() if public else K
+    same_as_keyword = True
     if name == "blob":
         s = src.blob()
     elif name == "private-blob":
         s = src.privateBlob()
+    elif case.get("via"):
+        # the same comment / passphrase handed over through the deprecated `extra` argument (a public key takes it
+        # as the comment, a private key as the passphrase), as text or as bytes
+        import warnings
+        which = "comment" if public else "passphrase"
+        val = kw[which]
+        kw2 = {k: v for k, v in kw.items() if k != which}
+        if case["via"] == "extra-str":
+            ex = val.decode("utf-8") if isinstance(val, bytes) else val
+        else:
+            ex = val.encode("utf-8") if isinstance(val, str) else val
+        with warnings.catch_warnings():
+            warnings.simplefilter("ignore", DeprecationWarning)
+            try:
+                s = src.toString(ttype, extra=ex, **kw2)
+            except (TypeError, ValueError, keys.BadKeyError) as e:
+                return "NE:toString-via-extra-raised-" + type(e).__name__
+        if which == "comment":
+            same_as_keyword = (s == src.toString(ttype, **kw))      # deterministic: must be byte-identical
     else:
         s = src.toString(ttype, **kw)
+    if not same_as_keyword:
+        return "NE:extra-serialises-differently"
     try:
         K2 = keys.Key.fromString(s, type=ftype, passphrase=kw.get("passphrase"))
     except (keys.BadKeyError, keys.EncryptedKeyError) as e:
@@ -349,7 +372,9 @@ def oracle(case, obs):
             return None
         kd = case["key"]
         tag = f"keyfmt-{kd['type']}-{case['fmt']}-{obs}"
-        if "pp" in case:
+        if case.get("via"):
+            tag = f"keyfmt-{case['fmt']}-via-{case['via']}-{obs.split(':', 1)[1]}"
+        elif "pp" in case:
             pp = bytes.fromhex(case["pp"]["b"]) if "b" in case["pp"] else case["pp"]["s"].encode("utf-8")
             tag = f"keyfmt-{case['fmt']}-passphrase-{'over' if len(pp) > 72 else 'upto'}-72-bytes-{obs.split(':')[0]}"
         if kd["type"] == "RSA" and case["fmt"] == "private-lsh" and kd["p"] > kd["q"] and obs == "NE:not-equal":
@@ -480,6 +505,17 @@ def gen(rng, tier):
     for kd in pool:
         bytype.setdefault(kd["type"], []).append(kd)
     small = [bytype[t][0] for t in ("Ed25519", "RSA", "EC", "DSA")] + [bytype["EC"][-1], bytype["Ed25519"][-1]]
+    # the deprecated `extra` argument as another way to hand over the same comment / passphrase, as str and bytes
+    for i, kd in enumerate(small):
+        for via in ("extra-str", "extra-bytes"):
+            cases.append({"kind": "keyfmt", "key": kd, "fmt": "public-openssh-comment", "via": via})
+            if kd["type"] != "Ed25519":
+                cases.append({"kind": "keyfmt", "key": kd, "fmt": "openssh-pem-pass", "via": via})
+            if tier != "quick" or i < 2:
+                cases.append({"kind": "keyfmt", "key": kd, "fmt": "openssh-v1-pass", "via": via})
+                cases.append({"kind": "keyfmt", "key": kd, "fmt": "openssh-default-pass", "via": via})
+    cases.append({"kind": "keyfmt", "key": small[0], "fmt": "openssh-v1-pass", "via": "extra-str", "pp": {"s": "p\u00e4ss \u00e9"}})
+    cases.append({"kind": "keyfmt", "key": small[1], "fmt": "openssh-pem-pass", "via": "extra-str", "pp": {"s": "p\u00e4ss \u00e9"}})
     for i, pp in enumerate(PASSPHRASES if tier != "quick" else PASSPHRASES[:6]):
         for j in range(1 if tier == "quick" else 4):
             kd = small[(i + j) % len(small)]
@@ -542,6 +578,8 @@ def describe(case):
         d = {"kind": case["kind"], "type": kd["type"]}
         if "pp" in case:
             d["passphrase"] = case["pp"]
+        if "via" in case:
+            d["via"] = case["via"]
         if "fmt" in case:
             d["fmt"] = case["fmt"]
         if kd["type"] == "RSA":
@@ -605,7 +643,8 @@ SPEC = Spec(
          "p<q and p>q, DSA 1024/2048 over fixed parameter sets, ECDSA P-256/384/521 incl. small scalars and "
          "leading-zero coordinates, Ed25519 — public blob vs the model; keyfmt: every key x every format that "
          "supports its type (blob, private blob, public OpenSSH +/- comment, OpenSSH v1 +/- comment +/- passphrase, "
-         "PEM +/- passphrase, LSH public/private, agent v3): equal key, same publicness, same MD5 and SHA256 "
+         "PEM +/- passphrase, LSH public/private, agent v3; comment / passphrase also handed over through the deprecated "
+         "`extra` argument as str and as bytes: same serialisation for comments, same round trip): equal key, same publicness, same MD5 and SHA256 "
          "fingerprints, same public part. non-trivial = anything but an empty ns/mp list",
     trusted=[
         "translator translate/c37.py (fail-closed; validated by this correspondence run)",
